@@ -109,22 +109,43 @@ func (p *Prog) resolveKinds() (*Kinds, error) {
 	if len(rest) != 2 {
 		return nil, fmt.Errorf("expected two type-only vertex kinds, found %v", rest)
 	}
-	// typed argument = the type-only kind a function vertex depends on (func -> X);
-	// typed output = the one that depends on a function vertex (X -> func)
-	fb, err := p.Role("funcBuilder")
-	if err != nil {
-		return nil, err
-	}
-	for _, c := range Calls(fb, GAddEdge, GAddEdgeW) {
-		a := c.Common().Args
-		k1 := p.KindOf(a[1])
-		k2 := p.KindOf(a[2])
-		if len(k1) == 1 && len(k2) == 1 {
-			if k1[0] == k.Func && (k2[0] == rest[0] || k2[0] == rest[1]) {
-				k.Arg = k2[0]
+	// typed output = the type-only kind that supplied inputs are registered as
+	// (the only kinds handed to AddOverwrite are the named value and the typed
+	// output); typed argument = the other one. Cross-checked below against the
+	// function wiring (func -> typedArg, typedOut -> func) when that is direct.
+	for _, f := range p.ArgFuncs() {
+		for _, c := range Calls(f, GAddOverwrite) {
+			if len(c.Common().Args) < 2 {
+				continue
 			}
-			if k2[0] == k.Func && (k1[0] == rest[0] || k1[0] == rest[1]) {
-				k.Out = k1[0]
+			if _, n := StructOf(Strip(c.Common().Args[1]).Type()); n != nil {
+				name := TypeStr(n)
+				if name == rest[0] || name == rest[1] {
+					if k.Out != "" && k.Out != name {
+						return nil, fmt.Errorf("both type-only kinds are registered as inputs: %s, %s", k.Out, name)
+					}
+					k.Out = name
+				}
+			}
+		}
+	}
+	if k.Out == rest[0] {
+		k.Arg = rest[1]
+	} else if k.Out == rest[1] {
+		k.Arg = rest[0]
+	}
+	if fb, err := p.Role("funcBuilder"); err == nil {
+		for _, c := range Calls(fb, GAddEdge, GAddEdgeW) {
+			a := c.Common().Args
+			k1 := p.KindOf(a[1])
+			k2 := p.KindOf(a[2])
+			if len(k1) == 1 && len(k2) == 1 {
+				if k1[0] == k.Func && k2[0] == k.Out {
+					return nil, fmt.Errorf("function vertex depends on the typed-output kind %s (wiring reversed)", k.Out)
+				}
+				if k2[0] == k.Func && k1[0] == k.Arg {
+					return nil, fmt.Errorf("typed-argument kind %s depends on a function vertex (wiring reversed)", k.Arg)
+				}
 			}
 		}
 	}
